@@ -40,6 +40,12 @@ class _Hooks(solverkit.StepHooks):
             return Cat("stack", list(args[0]), kwargs.get("dim", F(0)))
         if dotted == "warnings.warn":
             return None
+        if dotted in ("torch.round", "round", "torch.floor", "torch.ceil", "math.floor", "math.ceil") and len(args) == 1:
+            import math as _m
+            x = args[0].const_value() if isinstance(args[0], Rat) else args[0]
+            if isinstance(x, (Fraction, int)) and not isinstance(x, bool):
+                kind = dotted.split(".")[-1]
+                return Fraction(round(x) if kind == "round" else _m.floor(x) if kind == "floor" else _m.ceil(x))
         return solverkit.StepHooks.external_call(self, interp, dotted, args, kwargs, node, fi)
 
 
